@@ -56,6 +56,8 @@ def check_reset_before_accumulate(db, chk, rule: str, decided=None) -> None:
     if decided is None and rule.startswith("C19"):
         _derivation_eval(db, _Silent(chk), m, where)
         decided = _derivation_eval.second
+    if decided is None and _derivation_eval.stale_kept:
+        decided = False          # the first abstract run already shows it: a member of the previous computation is still in the set
     if ok or decided is not True:          # (the second-call abstract run decides; the shape of the reset is a diagnostic)
       chk.ob(rule, "the edge set is emptied (or rebuilt as a whole) on every computation, after the new path is known and before edges are added", True if ok else (False if decided is False else None), where,
            found={"resets": [s.lineno for s in resets], "accumulations": [ast.unparse(a)[:60] for a in accum]}, accepted="self.critical_path_edges_set = set()  before the accumulation loop",
@@ -219,6 +221,7 @@ class _Prefixed:
 
 def _derivation_eval(db, chk, m, where):
     _derivation_eval.second = None
+    _derivation_eval.stale_kept = None
     return _derivation_eval_(db, chk, m, where)
 
 
@@ -252,6 +255,12 @@ def _derivation_eval_(db, chk, m, where):
             return out
         if name == "self.has_edge" and len(pos) == 2:
             return (pos[0], pos[1]) in EDGES
+        if name == "self.number_of_nodes" and not pos:
+            return 4
+        if name == "self.number_of_edges" and not pos:
+            return len(EDGES)
+        if name == "self.size":          # total weight (or number) of the edges: unchanged by a re-weighting that moves time between edges
+            return sum(d_["weight"] for d_ in state["data"].values()) if (kw.get("weight") or (pos and pos[0])) else len(EDGES)
         if name == "self.get_edge_data" and len(pos) >= 2:
             return state["data"].get((pos[0], pos[1]))
         if name in ("self.successors", "self.neighbors") and len(pos) == 1:
@@ -264,12 +273,26 @@ def _derivation_eval_(db, chk, m, where):
         state["data"] = {e: {"object": Obj(f"E{e[0]}{e[1]}", attrs={"begin": e[0], "end": e[1], "weight": 0 if e == (0, 1) else 5, "type": ("enum", "CPEdgeType", "DEPENDENCY")}), "weight": 0 if e == (0, 1) else 5} for e in EDGES}          # (the path is entered through a zero-weight edge)
         edges = {to_term(PyTuple(list(e))): d for e, d in state["data"].items()}
         nl = [Obj(f"n{i}", attrs={"ev_idx": (i + 1) // 2, "idx": i, "is_start": i % 2 == 1}) for i in range(4)]          # (event 0 - the first event of the file - is on the path)
-        return {"self": Obj("self", cls=(m, "CPGraph"), attrs={"edges": edges, "node_list": nl, "critical_path_nodes": [7], "critical_path_events_set": {99}, "critical_path_edges_set": {"STALE"}})}
+        # the graph's other maps, consistent with the node list (n0 = end of event 0, n1 / n2 = start / end of event 1, n3 = start of event 2); only the span edge 1 -> 2 has an attribution
+        return {"self": Obj("self", cls=(m, "CPGraph"), attrs={"edges": edges, "node_list": nl, "critical_path_nodes": [7], "critical_path_events_set": {99}, "critical_path_edges_set": {"STALE"},
+                                                              "event_to_start_node_map": {1: 1, 2: 3}, "event_to_end_node_map": {0: 0, 1: 2}, "edge_to_event_map": {to_term(PyTuple([1, 2])): 1}})}
+    all_runs = []
     try:
-        runs = [r for r in Interp(db, call_hook=hook).explore(f"{CP}:CPGraph.critical_path", args) if r.raised is None and r.ret is True]
+        all_runs = Interp(db, call_hook=hook).explore(f"{CP}:CPGraph.critical_path", args)
+        runs = [r for r in all_runs if r.raised is None and r.ret is True]
     except AnalysisError:
         runs = []
     chk.analysed_add("functions", f"{CP}:CPGraph.critical_path (abstract run)")
+    _plain = lambda r_: all(isinstance(d_, tuple) and d_ and d_[0] == "noexc" for d_ in r_.path)          # (no decision other than "the try body raised nothing")
+    _alt = lambda r_: any(isinstance(d_, tuple) and len(d_) == 2 and d_[0] == "not" and isinstance(d_[1], tuple) and d_[1] and d_[1][0] == "noexc" for d_ in r_.path)
+    _main = [r_ for r_ in all_runs if _plain(r_)]
+    if not runs and len(_main) == 1 and _main[0].raised is not None and "ssert" in str(_main[0].raised) and all(_alt(r_) for r_ in all_runs if r_ is not _main[0]):
+        all_runs = _main
+        # the one concrete path ends in the method's own consistency assertion: with the members of an EARLIER computation in place (the stale edge) the call does not finish
+        _derivation_eval.stale_kept = True
+        chk.ob("C09.R2-derivation", "[abstract run] critical_path() on an object that still holds the members of an earlier computation finishes (its own consistency assertion holds)", False, where,
+               found=str(all_runs[0].raised)[:160], accepted="returns True with the three members rebuilt", why="an edge set that is only ever added to keeps the previous path's edges: the count no longer matches the new path")
+        return False
     if len(runs) != 1:
         chk.ob("C09.R2-derivation", "[abstract run] critical_path() evaluated on a small concrete graph", None, where, found=f"{len(runs)} successful path(s)")
         return None
@@ -281,6 +304,7 @@ def _derivation_eval_(db, chk, m, where):
         chk.ob("C09.R2-derivation", "[abstract run] the result members are concrete after the run", None, where, found={"nodes": str(nodes)[:60], "events": str(evs)[:60], "edges": str(eds)[:80]})
         return None
     got_e = sorted(x.name if isinstance(x, Obj) else str(x) for x in eds)
+    _derivation_eval.stale_kept = "STALE" in got_e
     ok = nodes == PATH and set(evs) == {0, 1, 2} and got_e == ["E01", "E12", "E23"] and len(list(eds)) == 3
     chk.ob("C09.R2-derivation", "[abstract run] after critical_path(): nodes = the path, events = the events of ALL its nodes, edges = exactly the edge objects of its CONSECUTIVE pairs (stale members gone, no chord)",
            ok, where, found={"nodes": nodes, "events": sorted(evs), "edges": got_e}, accepted={"nodes": PATH, "events": [0, 1, 2], "edges": ["E01", "E12", "E23"]},
@@ -292,7 +316,7 @@ def _derivation_eval_(db, chk, m, where):
 
         def args2(I):
             cp = lambda v_: list(v_) if isinstance(v_, list) else (set(v_) if isinstance(v_, set) else (dict(v_) if isinstance(v_, dict) else v_))
-            state["data"] = {e: {"object": next((x for x in first.attrs["critical_path_edges_set"] if isinstance(x, Obj) and x.name == f"E{e[0]}{e[1]}"), Obj(f"E{e[0]}{e[1]}", attrs={"begin": e[0], "end": e[1], "weight": 5})), "weight": 5} for e in EDGES}
+            state["data"] = {e: {"object": next((x for x in first.attrs["critical_path_edges_set"] if isinstance(x, Obj) and x.name == f"E{e[0]}{e[1]}"), Obj(f"E{e[0]}{e[1]}", attrs={"begin": e[0], "end": e[1], "weight": 0 if e == (0, 1) else 5})), "weight": 0 if e == (0, 1) else 5} for e in EDGES}          # (same node / edge counts and the same TOTAL weight as before: time was only moved between edges)
             a_ = {k: cp(v_) for k, v_ in first.attrs.items()}
             a_["edges"] = {to_term(PyTuple(list(e))): d for e, d in state["data"].items()}
             return {"self": Obj("self", cls=(m, "CPGraph"), attrs=a_)}
